@@ -92,10 +92,20 @@ def failed_commit(waiting):
     return dict(name="failed-commit-%s" % ("waiting" if waiting else "fresh"), steps=st)
 
 
+def syncer_mid_read(r):
+    """the store holds exactly the finalized block; while the oracle reads the store (its r-th read), the syncer commits the
+    next block, which carries a newer root that is not final"""
+    st = [dict(a="mine", leaves=[1]), dict(a="fin", to=1), dict(a="sync", to=1), dict(a="tick", fail="none"),
+          dict(a="mine", leaves=[2]), dict(a="tick", fail="none", mid=r), dict(a="tick", fail="none"),
+          dict(a="mine", leaves=[]), dict(a="mine", leaves=[3]), dict(a="fin", to=2), dict(a="sync", to=3), dict(a="tick", fail="none", mid=r),
+          dict(a="tick", fail="none")]
+    return dict(name="syncer-mid-read-%d" % r, steps=st)
+
+
 def named_behaviours():
     return [treadmill(1, 12), treadmill(2, 16), treadmill(3, 24, every=1),
             treadmill(1, 14, first_leaf=4, name="treadmill-lag1-first-leaf-late"),
-            failed_commit(False), failed_commit(True)]
+            failed_commit(False), failed_commit(True)] + [syncer_mid_read(r) for r in range(1, 16)]
 
 
 def random_behaviour(rng, k):
@@ -128,7 +138,10 @@ def random_behaviour(rng, k):
         fail = "none"
         if rng.random() < pfail:
             fail = rng.choice(["l1", "sync", "isinj", "inject"])
-        st.append(dict(a="tick", fail=fail))
+        t = dict(a="tick", fail=fail)
+        if rng.random() < 0.2:
+            t["mid"] = rng.randrange(1, 14)     # the syncer processes its next block in the middle of the oracle's read
+        st.append(t)
     while len(st) < n:
         if style == "follow":
             # the syncer follows the finalized head closely; now and then the COMMIT of its last block fails and the
@@ -202,7 +215,7 @@ def random_behaviour(rng, k):
 
 def sanitize(b):
     """replay files / TLC output -> driver input (only the fields the driver reads)"""
-    keep = ("a", "leaves", "to", "from", "g", "fail", "sparse", "failcommit")
+    keep = ("a", "leaves", "to", "from", "g", "fail", "sparse", "failcommit", "mid")
     return dict(name=b.get("name", ""), steps=[{k: v for k, v in s.items() if k in keep} for s in b["steps"]])
 
 
